@@ -334,6 +334,8 @@ def _records():
         dns.ResourceRecord("host.example", t.TXT, IN, 60, b""),
         dns.ResourceRecord("host.example", t.MX, IN, 60, b"\x00\x0a\x04mail\x07example\x00"),
         dns.ResourceRecord("host.example", t.HTTPS, IN, 60, https),
+        # SvcPriority is a 16-bit field: 0x9c40 = 40000 (wire bytes as a server may send them)
+        dns.ResourceRecord("host.example", t.HTTPS, IN, 60, b"\x9c\x40" + https[2:]),
         dns.ResourceRecord("host.example", t.HTTPS, IN, 60, b"\x00"),
         dns.ResourceRecord("host.example", t.A, IN, 60, b"\x01\x02\x03"),
         dns.ResourceRecord("", t.SOA, IN, 60, b"\x00\x00" + bytes(20)),
